@@ -84,7 +84,8 @@ pub fn crash_case(max_cols: usize, min_ops: usize, max_ops: usize, multi: bool) 
 /// of each op. Returns per-op counts.
 pub fn count_io(sc: &Scenario, dir: &Path) -> Res<Vec<usize>> {
 	let mut it = Interp::new(&sc.cfg, dir, Interp::universe_of(sc));
-	it.check_every_op = true;
+	// reads go through try_io! sites too (mapped chunk access): keep them out of the count
+	it.check_every_op = false;
 	it.open()?;
 	let mut counts = Vec::new();
 	const BIG: usize = usize::MAX / 2;
@@ -95,6 +96,7 @@ pub fn count_io(sc: &Scenario, dir: &Path) -> Res<Vec<usize>> {
 		disarm();
 		r?;
 		counts.push(used);
+		it.check_reads(false)?;
 	}
 	it.step(&Op::Reopen)?;
 	it.check_reads(true)?;
